@@ -117,6 +117,13 @@ SUBSTR_MENU = [('r', 'T', None, 0), ('r', 'T', '1.0', 0), ('r', 'Ab', None, 0), 
                ('m', 'T-1.0>Ab-1.0+CAb-1.0', 0), ('m', 'T-1.0>CAb-1.0+Ab-1.0', 0)]
 
 
+# Election family: one namespace, versions whose minor has two to four digits and majors 0, 1, 2, 10 (numeric
+# comparison of major, then minor: 1.150 < 2.0 < 10.0, 1.99 < 1.100 < 1.150 < 1.1000), in one and two directories.
+ELECT_VERS = ('0.100', '1.99', '1.100', '1.150', '2.0', '10.0', '1.1000')
+ELECT = [F(d, 'A', v) for v in ELECT_VERS for d in ('d1', 'd2')]
+ELECT_MENU = [('r', 'A', None, 0), ('q', 'd2', 'A', None, 0), ('p', 'd1'), ('r', 'A', '2.0', 0)]
+
+
 def use_names(nss):
     """namespace alphabet observed by the driver and the model (module global, set per job)"""
     global NSS
@@ -205,7 +212,7 @@ def content(key):
 
 
 def all_content_keys():
-    keys = set(f[3] for f in WIDE + CORE + WIDE_THOROUGH_EXTRA + SUBSTR)
+    keys = set(f[3] for f in WIDE + CORE + WIDE_THOROUGH_EXTRA + SUBSTR + ELECT)
     keys.update(op[1] for op in MENU_BFS + SUBSTR_MENU if op[0] == 'm')
     return sorted(keys)
 
@@ -213,7 +220,7 @@ def all_content_keys():
 def build_pool(b):
     """Compile every content key once per build: <builddir>/c17pool-<hash>/<key>.typelib"""
     keys = all_content_keys()
-    tag = hashlib.sha1(('v4|' + '|'.join(keys)).encode()).hexdigest()[:10]
+    tag = hashlib.sha1(('v5|' + '|'.join(keys)).encode()).hexdigest()[:10]
     pool = os.path.join(b.dir, 'c17pool-' + tag)
     if os.path.exists(os.path.join(pool, 'OK')):
         return pool
@@ -1167,12 +1174,14 @@ def run(ctx):
         plan = [('bfs-wide2', 'bfs', False, 'reset', WIDE, (0, 2), 2, MENU_BFS, ABC),
                 ('bfs-core3', 'bfs', False, 'reset', CORE, (3, 3), 2, MENU_BFS, ABC),
                 ('bfs-substr', 'bfs', False, 'reset', SUBSTR, (0, 3), 2, SUBSTR_MENU, SUBSTR_NSS),
+                ('bfs-elect', 'bfs', False, 'reset', ELECT, (0, 3), 2, ELECT_MENU, ('A',)),
                 ('xcheck', 'bfs', False, 'both', XCHECK_QUICK, None, 2, MENU_BFS, ABC)]
     else:
         cbuild.build(True).driver('drv_repo')
         plan = [('all-core3', 'all', False, 'reset', CORE, (0, 3), 3, MENU, ABC),
                 ('bfs-wide3', 'bfs', False, 'reset', WIDE + WIDE_THOROUGH_EXTRA, (0, 3), 2, MENU_BFS, ABC),
                 ('bfs-substr', 'bfs', False, 'reset', SUBSTR, (0, 4), 3, SUBSTR_MENU, SUBSTR_NSS),
+                ('bfs-elect', 'bfs', False, 'reset', ELECT, (0, 4), 2, ELECT_MENU, ('A',)),
                 ('bfs-asan', 'bfs', True, 'reset', CORE, (0, 2), 2, MENU_BFS, ABC),
                 ('xcheck', 'bfs', False, 'both', CORE, (0, 1), 2, MENU_BFS, ABC),
                 ('xcheck-family', 'bfs', False, 'both', XCHECK_QUICK, None, 2, MENU_BFS, ABC)]
@@ -1199,12 +1208,15 @@ def run(ctx):
     use_names(ABC)
     bounds['menu_bfs'] = [op_text(o) for o in MENU_BFS]
     bounds['menu_substr'] = [op_text(o) for o in SUBSTR_MENU]
+    bounds['menu_elect'] = [op_text(o) for o in ELECT_MENU]
     ctx.set(rule='configuration = setup x placement of files from a file alphabet (canonicalised under the renamings that '
                  'leave setup, alphabet and menu invariant; that group is trivial here). quick: model BFS with state '
                  'de-duplication to depth 2 over the %d-operation menu (+ require(A,1.1) in the BFS explorations), every edge replayed as the last step '
                  'of its own history, over (bfs-wide2) every placement of <= 2 files of the 25-file WIDE alphabet, (bfs-core3) '
                  'every placement of exactly 3 files of the 12-file CORE alphabet and (bfs-substr) every placement of <= 3 of 5 '
-                 'files over the namespaces T, Ab, CAb (T includes Ab and CAb, both include orders; own 6-op menu). thorough: (all-core3) every operation sequence of '
+                 'files over the namespaces T, Ab, CAb (T includes Ab and CAb, both include orders; own 6-op menu) and (bfs-elect) '
+                 'every placement of <= 3 (thorough <= 4) of the 14 files A-{0.100,1.99,1.100,1.150,2.0,10.0,1.1000} x {d1,d2} '
+                 'with a 4-op menu (version election with multi-digit minors). thorough: (all-core3) every operation sequence of '
                  'length 1..3 WITHOUT de-duplication over every placement of <= 3 CORE files (<= 4 files does not fit 10 minutes '
                  'at the measured ~5000 histories/s), (bfs-wide3) depth-2 BFS over every placement of <= 3 files of WIDE + 6 '
                  'more files, (bfs-asan) depth-2 BFS over <= 2 CORE files with the ASan+UBSan build. '
